@@ -162,8 +162,19 @@ fn check_inner(c: &Case, st: &mut Stats) -> Result<(), String> {
         // scalars of any magnitude (incl. subnormal): compared where the exact quotients are zero or normal f32 values
         let q_ok = |q: f64| q == 0.0 || (q.abs() > 1e-37 && q.abs() < 1e37);
         let sd_ok = u6.iter().all(|x| q_ok(x / s6)) && a6.iter().flatten().all(|x| q_ok(x / s6));
-        if sd_ok {
-            cmp_vec("f32 scalar_div", v64(ru.scalar_div(s).values()), [u6[0] / s6, u6[1] / s6, u6[2] / s6], &mut worst)?;
+        {
+            // element by element: every quotient that is representable is judged
+            let got = v64(ru.scalar_div(s).values());
+            for i in 0..3 {
+                let ex = u6[i] / s6;
+                if q_ok(ex) {
+                    if !close(got[i], ex) {
+                        return Err(format!("f32 scalar_div[{i}] = {:e}, exact {:e} (dividing {:e} by {:e})", got[i], ex, u6[i], s6));
+                    }
+                } else {
+                    st.class("scalar_div_quotient_outside_f32_normal_range_not_compared", 1);
+                }
+            }
         }
         cmp_vec("f32 component_mul", v64(ru.component_mul(&rv).values()), [u6[0] * v6[0], u6[1] * v6[1], u6[2] * v6[2]], &mut worst)?;
         let sd = ma.scalar_div(s).values();
